@@ -229,7 +229,9 @@ fn prepare(case: Case, a: bool, root: &Path, have_model: bool) -> Prep {
     if !case.cpp && case.id % 3 == 0 {
         clang_args.push("-std=gnu11".into());
     }
-    let wrap_base = dir.join("wrappers");
+    // custom --wrap-static-fns-path: plain stem, nested directories that do not exist yet, a stem with a dot
+    // (bindgen replaces what follows the last dot with the extension, `Path::with_extension`)
+    let wrap_base = dir.join(["wrappers", "out/static/fns", "w.gen", "extern_fns"][case.id % 4]);
     let wrapper_path = wrap_base.with_extension(if case.cpp { "cpp" } else { "c" });
     let log = dir.join("verif.log");
     let mut flags_desc = vec![];
@@ -468,7 +470,7 @@ fn main() {
     let args = Args::parse();
     drive::quiet_panics();
     let thorough = args.thorough();
-    let mut n_cases: usize = if thorough { 2000 } else { 120 };
+    let mut n_cases: usize = if thorough { 1500 } else { 120 };
     let mut only: Option<usize> = None;
     let mut it = args.extra.iter();
     while let Some(a) = it.next() {
